@@ -242,7 +242,7 @@ func digitRunInputs(thorough bool, fn func([]byte)) {
 func longNumberInputs(thorough bool, fn func(segs []seg)) {
 	ls := []int{100, 255, 256, 257, 1000, 1023, 1024, 1025, 4095, 4096, 4097, 5000, 16384, 65535, 65536, 65537, 131073}
 	if thorough {
-		ls = append(ls, 2047, 2048, 2049, 8191, 8192, 8193, 32768, 262145, 1000003)
+		ls = append(ls, 2047, 2048, 2049, 8191, 8192, 8193, 32768, 262145)
 	}
 	type shape struct {
 		pre  string
